@@ -100,62 +100,74 @@ Theorem c08_broadcast_length :
 Proof. exact broadcast_length. Qed.
 Print Assumptions c08_broadcast_length.
 
-(* ---- Kernel.__call__(diag=True): shape of the result (Models/C08_diag.v).  Full statement wanted by the
-   property: for EVERY broadcastable (sp, sd), whatever forward returned (the diagonal t ++ [n] or the
-   full t ++ [n; n]), the call returns shape t ++ [n].  The code's test refutes it (recorded finding
-   C08-kernel-diag-batch-rank-heuristic; witness replayed on /repo by the driver's diag_n3 outputs): *)
-Theorem c08_kernel_diag_shape_refuted :
+(* ---- Kernel.__call__(diag=True): shape of the result (Models/C08_diag.v).  For EVERY broadcast batch t and
+   number of points n, whatever forward returned (the diagonal t ++ [n] or the full t ++ [n; n]), the call
+   returns shape t ++ [n]: the current test (/repo a464a56) decides correctly for all shapes *)
+Theorem c08_kernel_diag_shape :
+  forall t n, call_diag_shape_fixed (t ++ [n]) t n = t ++ [n] /\
+              call_diag_shape_fixed (t ++ [n; n]) t n = t ++ [n].
+Proof. exact call_diag_shape_fixed_ok. Qed.
+Print Assumptions c08_kernel_diag_shape.
+Theorem c08_kernel_diag_fixed_test :
+  forall t n, takes_diagonal_fixed (t ++ [n]) t n = false /\ takes_diagonal_fixed (t ++ [n; n]) t n = true.
+Proof. exact diag_heuristic_fixed. Qed.
+Print Assumptions c08_kernel_diag_fixed_test.
+(* why the fix was necessary (finding C08-kernel-diag-batch-rank-heuristic, found by this check on /repo 0d5c998,
+   now fixed): the OLD test `res.dim() == x.dim()` takes a correct diagonal for a full matrix ... *)
+Theorem c08_kernel_diag_old_test_misfires :
   exists sp sd t n d, broadcast_shapes sp sd = Some t /\
     call_diag_shape (t ++ [n]) (sd ++ [n; d]) n <> t ++ [n].
 Proof. exact diag_heuristic_refuted. Qed.
-Print Assumptions c08_kernel_diag_shape_refuted.
-(* it holds on the complement of the finding's guard: kernel batch rank <= input batch rank *)
-Theorem c08_kernel_diag_shape_partial :
-  forall sp sd t n d, broadcast_shapes sp sd = Some t -> length sp <= length sd ->
-    call_diag_shape (t ++ [n]) (sd ++ [n; d]) n = t ++ [n] /\
-    call_diag_shape (t ++ [n; n]) (sd ++ [n; d]) n = t ++ [n].
-Proof. exact call_diag_shape_partial. Qed.
-Print Assumptions c08_kernel_diag_shape_partial.
-(* the exact input class on which a correct diagonal is taken for a full matrix: the broadcast batch has
-   one dimension more than the inputs' batch and ends in n (this is the class the driver keys the finding by) *)
+Print Assumptions c08_kernel_diag_old_test_misfires.
+(* ... exactly on this input class (the class the driver's diag_n3 outputs exercise and label): the broadcast batch
+   has one dimension more than the inputs' batch and ends in n ... *)
 Theorem c08_kernel_diag_collision_class :
   forall t sd n d,
     takes_diagonal (t ++ [n]) (sd ++ [n; d]) n = true <->
     length t = S (length sd) /\ exists t', t = t' ++ [n].
 Proof. exact takes_diagonal_on_diag_iff. Qed.
 Print Assumptions c08_kernel_diag_collision_class.
-(* the test of the proposed patch (rank of the broadcast batch + 2) decides correctly for all shapes *)
-Theorem c08_kernel_diag_fixed_test :
-  forall t n, takes_diagonal_fixed (t ++ [n]) t n = false /\ takes_diagonal_fixed (t ++ [n; n]) t n = true.
-Proof. exact diag_heuristic_fixed. Qed.
-Print Assumptions c08_kernel_diag_fixed_test.
+(* ... and was right whenever the kernel batch rank did not exceed the input batch rank *)
+Theorem c08_kernel_diag_old_test_partial :
+  forall sp sd t n d, broadcast_shapes sp sd = Some t -> length sp <= length sd ->
+    call_diag_shape (t ++ [n]) (sd ++ [n; d]) n = t ++ [n] /\
+    call_diag_shape (t ++ [n; n]) (sd ++ [n; d]) n = t ++ [n].
+Proof. exact call_diag_shape_partial. Qed.
+Print Assumptions c08_kernel_diag_old_test_partial.
 
-(* ---- MultitaskGaussianLikelihood noise covariance: the code expands the likelihood's batch to the data
-   batch.  Tensor.expand succeeds exactly when the broadcast batch IS the data batch *)
+(* ---- batch shape of the MultitaskGaussianLikelihood noise covariance: the current code (/repo e40f817) yields the
+   broadcast batch for all (likelihood batch, data batch) pairs *)
+Theorem c08_multitask_noise_batch :
+  forall sp sd, mt_noise_batch_fixed sp sd = broadcast_shapes sp sd.
+Proof. exact mt_noise_batch_fixed_ok. Qed.
+Print Assumptions c08_multitask_noise_batch.
+(* Tensor.expand of a batch sp to a batch sd succeeds exactly when the broadcast batch IS sd *)
 Theorem c08_expand_iff_broadcast_is_target :
   forall sp sd, expands_to sp sd = true <-> broadcast_shapes sp sd = Some sd.
 Proof. exact expands_to_iff. Qed.
 Print Assumptions c08_expand_iff_broadcast_is_target.
-(* full statement wanted: mt_noise_batch sp sd = broadcast_shapes sp sd for all sp sd.  Refuted (recorded
-   finding C08-multitask-likelihood-param-batch): *)
-Theorem c08_multitask_noise_batch_refuted :
-  exists sp sd t, broadcast_shapes sp sd = Some t /\ mt_noise_batch sp sd = None.
+(* ---- ConstantKernel.forward still expands its constant to the INPUTS' batch ([constant_kernel_batch]; the multitask
+   likelihood did the same up to /repo 0d5c998).  Full statement wanted: constant_kernel_batch sp sd =
+   broadcast_shapes sp sd for all sp sd.  Refuted (recorded finding C08-constant-kernel-param-batch; replayed on /repo
+   by the driver's kernel:constant family): *)
+Theorem c08_constant_kernel_batch_refuted :
+  exists sp sd t, broadcast_shapes sp sd = Some t /\ constant_kernel_batch sp sd = None.
 Proof. exact mt_noise_batch_refuted. Qed.
-Print Assumptions c08_multitask_noise_batch_refuted.
-(* holds on the complement (likelihood batch expandable to the data batch); never a WRONG shape; and the
-   failing class is exactly "broadcast batch <> data batch" (the class the driver keys the finding by) *)
-Theorem c08_multitask_noise_batch_partial :
-  forall sp sd, expands_to sp sd = true -> mt_noise_batch sp sd = broadcast_shapes sp sd.
+Print Assumptions c08_constant_kernel_batch_refuted.
+(* holds on the complement (kernel batch expandable to the input batch); never a WRONG shape; and the failing class is
+   exactly "broadcast batch <> input batch" (the class the driver keys the finding by) *)
+Theorem c08_constant_kernel_batch_partial :
+  forall sp sd, expands_to sp sd = true -> constant_kernel_batch sp sd = broadcast_shapes sp sd.
 Proof. exact mt_noise_batch_partial. Qed.
-Print Assumptions c08_multitask_noise_batch_partial.
-Theorem c08_multitask_noise_batch_sound :
-  forall sp sd t, mt_noise_batch sp sd = Some t -> broadcast_shapes sp sd = Some t.
+Print Assumptions c08_constant_kernel_batch_partial.
+Theorem c08_constant_kernel_batch_sound :
+  forall sp sd t, constant_kernel_batch sp sd = Some t -> broadcast_shapes sp sd = Some t.
 Proof. exact mt_noise_batch_sound. Qed.
-Print Assumptions c08_multitask_noise_batch_sound.
-Theorem c08_multitask_noise_batch_fails_iff :
-  forall sp sd t, broadcast_shapes sp sd = Some t -> (mt_noise_batch sp sd = None <-> t <> sd).
+Print Assumptions c08_constant_kernel_batch_sound.
+Theorem c08_constant_kernel_batch_fails_iff :
+  forall sp sd t, broadcast_shapes sp sd = Some t -> (constant_kernel_batch sp sd = None <-> t <> sd).
 Proof. exact mt_noise_batch_fails_iff. Qed.
-Print Assumptions c08_multitask_noise_batch_fails_iff.
+Print Assumptions c08_constant_kernel_batch_fails_iff.
 
 (* non-vacuity: parameters of batch shape [2;1] against data of batch shape [3] *)
 Example ex_c08_broadcast :
@@ -163,3 +175,9 @@ Example ex_c08_broadcast :
   bproj [2; 1] [1; 2] = [1; 0] /\ bproj [3] [1; 2] = [2].
 Proof. cbv. repeat split; auto with arith. Qed.
 Print Assumptions ex_c08_broadcast.
+(* non-vacuity of the hypotheses of the _partial theorems: kernel batch [1] against data batch [3] (rank 1 <= 1);
+   likelihood batch [1] expands to data batch [2] *)
+Example ex_c08_partial_hyps :
+  broadcast_shapes [1] [3] = Some [3] /\ length [1] <= length [3] /\ expands_to [1] [2] = true /\
+  constant_kernel_batch [1] [2] = Some [2].
+Proof. cbv. repeat split; auto with arith. Qed.
